@@ -62,6 +62,8 @@ def monitorLine (l : Line) : Option String :=
     match C12.marshalOK (obj l "reg") (obj l "custom") (obj l "o.obj") with
     | some c => some c
     | none => C12.roundTripOK (obj l "reg") (obj l "custom") (obj l "o.reg2") (obj l "o.custom2")
+  | "claimsdoc" =>
+    C12.badMemberOK (obj l "doc") (str l "bad") (if str l "obs" == "ok" then some (obj l "o.reg2") else none)
   | "aud" =>
     let o : Out (List String) := if str l "obs" == "val" then .val (list l "o.v") else .err
     if C12.audienceOK (parseDoc l) o then none else some "audience-decoding"
@@ -87,6 +89,7 @@ def modelLine (l : Line) : String × Bool :=
   | "marshal" =>
     let m := merge (obj l "reg") (obj l "custom")
     ("obj", (str l "obs" == "ok" || str l "obs" == "decode-refused") && C12.sameMap m (obj l "o.obj"))
+  | "claimsdoc" => ("err", str l "obs" == "err")   -- the model: a member in an unsupported form is refused
   | "aud" =>
     let m := decodeAudience (parseDoc l)
     let o : Out (List String) := if str l "obs" == "val" then .val (list l "o.v") else if str l "obs" == "panic" then .panic else .err
